@@ -40,6 +40,7 @@ def payload(pairs, rng=None):
 
 class C13(Prop):
     id = "C13"
+    thorough_rounds = 3   # thorough tier: this many independently seeded rounds of the random generators (duplicates dropped)
     modules = ["H3.Props.C13"]
     engines = ["set"]
     design_ref = "DESIGN.md section 7, C13"
